@@ -4,8 +4,10 @@ import (
 	"encoding/json"
 	"fmt"
 	"io"
+	"net"
 	"net/http"
 	"sync"
+	"sync/atomic"
 	"time"
 
 	"verif/sim/simnet"
@@ -128,6 +130,7 @@ func worldPlugins(w *World) {
 		"userConnTimeout": 3,
 		"httpPlugins":     pcfg,
 	}
+	var overlapUsers atomic.Bool
 	// plugin servers (real net/http on the simulated network)
 	for _, p := range plugins {
 		p := p
@@ -156,6 +159,9 @@ func worldPlugins(w *World) {
 			p.mu.Lock()
 			p.calls = append(p.calls, pluginCall{rq.Op, snapshot.Content, w.Net.Now()})
 			p.mu.Unlock()
+			if rq.Op == "NewUserConn" && overlapUsers.Load() {
+				time.Sleep(300 * time.Millisecond) // several user connections are before the plugins at the same time
+			}
 			if n, _ := snapshot.Content["proxy_name"].(string); rq.Op == "NewProxy" && n == "late" {
 				time.Sleep(time.Second) // this registration takes a while: the session may be gone when the answer comes
 			}
@@ -480,6 +486,47 @@ func worldPlugins(w *World) {
 		verify("NewUserConn", eu, served || c.ReqWorkCount() > reqBefore, "user connection")
 		if eu.pass {
 			verify("NewWorkConn", ew, served, "work connection")
+		}
+		// several users arrive at the same moment, each decision takes the plugins a while: every plugin in the chain
+		// is asked about every one of these connections - about that connection, not about its neighbour
+		if w.KnobBool("concurrent_user_conns", 60) {
+			w.Check("C15.NewUserConn-concurrent")
+			w.Probe("plugins.concurrent_user_conns")
+			snap()
+			eu := expect("NewUserConn")
+			overlapUsers.Store(true)
+			addrs := map[string]bool{}
+			var ucs []net.Conn
+			for i := 0; i < w.KnobPick("concurrent_users", 2, 3, 5); i++ {
+				uc, err := simnet.DialFrom(fmt.Sprintf("10.0.3.%d", 100+i), fmt.Sprintf("10.0.0.1:%d", port), 5*time.Second)
+				if err != nil {
+					continue
+				}
+				addrs[uc.LocalAddr().String()] = true
+				ucs = append(ucs, uc)
+			}
+			time.Sleep(time.Duration(1+len(plugins)) * time.Second)
+			overlapUsers.Store(false)
+			for _, p := range eu.called {
+				seen := map[string]int{}
+				for _, cl := range p.callsFor("NewUserConn")[marks[p.name+"/NewUserConn"]:] {
+					ra, _ := cl.Content["remote_addr"].(string)
+					seen[ra]++
+				}
+				for a := range addrs {
+					if seen[a] != 1 {
+						viol("consult", "userconn-plugin-asked-about-wrong-connection", "%d users connected at the same moment from %v; plugin %s was asked %d times about %s (all its NewUserConn requests: %v)", len(addrs), sortedKeys(addrs), p.name, seen[a], a, seen)
+						break
+					}
+				}
+				if p.outcome["NewUserConn"] == poRewrite {
+					break // what later plugins see is this plugin's edit
+				}
+			}
+			for _, uc := range ucs {
+				uc.Close()
+			}
+			time.Sleep(500 * time.Millisecond)
 		}
 		// explicit close notifies every subscribed plugin
 		snap()
